@@ -77,7 +77,7 @@ def run(ctx):
             for _ in range(rnd.randrange(0, 7)):
                 kind = rnd.choice(["bank", "bank", "cc", "inv"])
                 infos.append({"kind": kind, "acctid": acct(rnd), "accttype": rnd.choice(["CHECKING", "SAVINGS", "MONEYMRKT", "CREDITLINE", "CHECKING", "SAVINGS", "CD"]) if kind == "bank" else "",
-                              "instid": {"bank": "999", "cc": "", "inv": "brk.srv"}[kind], "status": rnd.choice(STATUSES)})
+                              "instid": {"bank": "999", "cc": "", "inv": "brk.srv"}[kind], "status": rnd.choice(STATUSES), "suptxdl": rnd.choice(["Y", "Y", "N"])})
             if rnd.random() < 0.25:
                 for x in infos:
                     if x["kind"] == "bank":
@@ -136,7 +136,9 @@ def run(ctx):
         else:
             argv.append("--dryrun")
             env.responder = None
+        env.debug_logging = rnd.random() < 0.3        # (verbosity changes what is logged, never what is requested)
         res = env.run(argv)
+        env.debug_logging = False
         if use_all:
             stm = [p for p in res["posts"] if b"<ACCTINFORQ>" not in p["body"] and b"<PROFRQ>" not in p["body"]]
             data = stm[-1]["body"] if stm else b""
